@@ -136,8 +136,7 @@ func checkConc(c *ConcCase) *Outcome {
 	for i, e := range c.Exprs {
 		e.Walk(func(x *m.Expr) {
 			if x.K == "call" || x.K == "mcall" {
-				switch x.Name {
-				case "tr", "boom", "hsub", "hpair", "lz_if", "lz_and", "lz_pick":
+				if run.IsHarnessName(x.Name) {
 					usesHarness[i] = true
 				}
 			}
